@@ -198,4 +198,155 @@ VF_E int* it_next_bidi(int* p, diff_t n) { return etl::next(bidi_it{p}, n).p; }
 VF_E int* it_prev_bidi(int* p, diff_t n) { return etl::prev(bidi_it{p}, n).p; }
 VF_E int* it_advance_bidi(int* p, diff_t n) { bidi_it i{p}; etl::advance(i, n); return i.p; }
 VF_E diff_t it_distance_bidi(int* f, int* l) { return etl::distance(bidi_it{f}, bidi_it{l}); }
+
+// =====================================================================================================================
+// second wave: (1) Hm, an element type with an OBSERVABLE move: the move constructor / move assignment mark the source (v = -1) and the
+// self-move-assignment is destructive (no self check: x = move(x) leaves x == -1).  MoveAssignable promises nothing about x = move(x),
+// and the std:: algorithms never self-move-assign, so every kept element must still carry its original value afterwards.
+// (2) callables whose result is only CONTEXTUALLY CONVERTIBLE to bool: predicates / comparators returning int with truthy values 2,
+// 0x100 and INT_MIN (never 1): an implementation may only test the result for != 0, never add, compare with true or truncate it.
+#define VF_HM_TYPE(Name, T)                                                                                              \
+    struct Name {                                                                                                        \
+        T v;                                                                                                             \
+        Name() noexcept : v{0} { }                                                                                       \
+        Name(Name const& o) noexcept : v{o.v} { }                                                                        \
+        Name(Name&& o) noexcept : v{o.v} { o.v = -1; }                                                                   \
+        auto operator=(Name const& o) noexcept -> Name& { v = o.v; return *this; }                                       \
+        auto operator=(Name&& o) noexcept -> Name& { v = o.v; o.v = -1; return *this; } /* deliberately no self check */ \
+        friend auto operator==(Name const& a, Name const& b) noexcept -> bool { return a.v == b.v; }                     \
+        friend auto operator<(Name const& a, Name const& b) noexcept -> bool { return a.v < b.v; }                       \
+    }
+VF_HM_TYPE(Hm, int);
+// one-byte twin for static_vector<Hc, 4>: cxx2c does not lower alignas(), so aligned_storage_t<4, 4>[4] followed by a one-byte size
+// gets a different sizeof in C (layout _Static_assert); with alignment 1 the C and C++ layouts coincide (cf. fam/lifetime)
+VF_HM_TYPE(Hc, signed char);
+#define VF_IMIN (-2147483647 - 1)
+// unary predicates on int, selector p: 0 bit 1 (truthy 2), 1 bit 8 (truthy 0x100), 2 sign bit (truthy INT_MIN)
+struct i_bit1 { auto operator()(int const& x) const -> int { return x & 2; } };
+struct i_bit8 { auto operator()(int const& x) const -> int { return x & 0x100; } };
+struct i_sign { auto operator()(int const& x) const -> int { return x & VF_IMIN; } };
+#define IPRED1(p, ...) do { if ((p) == 0) { auto pred = i_bit1{}; __VA_ARGS__; } else if ((p) == 1) { auto pred = i_bit8{}; __VA_ARGS__; } else { auto pred = i_sign{}; __VA_ARGS__; } } while (0)
+// binary predicates on int, selector p as PEQ: 0 equality (truthy 2), 1 equality of the low two bits (truthy 0x100)
+struct i_eq { auto operator()(int const& a, int const& b) const -> int { return a == b ? 2 : 0; } };
+struct i_low2_eq { auto operator()(int const& a, int const& b) const -> int { return ((a ^ b) & 3) == 0 ? 0x100 : 0; } };
+#define IPEQ(p, ...) do { if ((p) == 0) { auto pred = i_eq{}; __VA_ARGS__; } else { auto pred = i_low2_eq{}; __VA_ARGS__; } } while (0)
+// comparators on int, selector c as CMP_INT: 0 less (truthy 2), 1 greater (truthy INT_MIN), 2 less on the low two bits (truthy 0x100)
+struct i_less { auto operator()(int const& a, int const& b) const -> int { return a < b ? 2 : 0; } };
+struct i_greater { auto operator()(int const& a, int const& b) const -> int { return a > b ? VF_IMIN : 0; } };
+struct i_low2_less { auto operator()(int const& a, int const& b) const -> int { return static_cast<int>((a & 3) < (b & 3)) << 8; } };
+#define ICMP_INT(c, ...) do { if ((c) == 0) { auto cmp = i_less{}; __VA_ARGS__; } else if ((c) == 1) { auto cmp = i_greater{}; __VA_ARGS__; } else { auto cmp = i_low2_less{}; __VA_ARGS__; } } while (0)
+// the same on the key (x >> 4) of tagged ints, selector c as CMP_HI
+struct i_hi_less { auto operator()(int const& a, int const& b) const -> int { return (a >> 4) < (b >> 4) ? 2 : 0; } };
+struct i_hi_greater { auto operator()(int const& a, int const& b) const -> int { return (a >> 4) > (b >> 4) ? VF_IMIN : 0; } };
+struct i_hi_low2 { auto operator()(int const& a, int const& b) const -> int { return static_cast<int>(((a >> 4) & 3) < ((b >> 4) & 3)) << 8; } };
+#define ICMP_HI(c, ...) do { if ((c) == 0) { auto cmp = i_hi_less{}; __VA_ARGS__; } else if ((c) == 1) { auto cmp = i_hi_greater{}; __VA_ARGS__; } else { auto cmp = i_hi_low2{}; __VA_ARGS__; } } while (0)
+// callables on Hm: the int ones applied to .v
+struct hm_bit1 { auto operator()(Hm const& x) const -> int { return x.v & 2; } };
+struct hm_bit8 { auto operator()(Hm const& x) const -> int { return x.v & 0x100; } };
+struct hm_sign { auto operator()(Hm const& x) const -> int { return x.v & VF_IMIN; } };
+#define HPRED1(p, ...) do { if ((p) == 0) { auto pred = hm_bit1{}; __VA_ARGS__; } else if ((p) == 1) { auto pred = hm_bit8{}; __VA_ARGS__; } else { auto pred = hm_sign{}; __VA_ARGS__; } } while (0)
+struct hm_eq { auto operator()(Hm const& a, Hm const& b) const -> int { return a.v == b.v ? 2 : 0; } };
+struct hm_low2_eq { auto operator()(Hm const& a, Hm const& b) const -> int { return ((a.v ^ b.v) & 3) == 0 ? 0x100 : 0; } };
+struct hm_hi_less { auto operator()(Hm const& a, Hm const& b) const -> int { return (a.v >> 4) < (b.v >> 4) ? 2 : 0; } };
+struct hm_hi_greater { auto operator()(Hm const& a, Hm const& b) const -> int { return (a.v >> 4) > (b.v >> 4) ? VF_IMIN : 0; } };
+struct hm_hi_low2 { auto operator()(Hm const& a, Hm const& b) const -> int { return static_cast<int>(((a.v >> 4) & 3) < ((b.v >> 4) & 3)) << 8; } };
+// selector c: 0..2 the comparators above, 4: the overload without comparator (operator< on the whole value)
+#define HCMP(c, DEFAULT, ...) do { if ((c) == 4) { DEFAULT; } else if ((c) == 0) { auto cmp = hm_hi_less{}; __VA_ARGS__; } else if ((c) == 1) { auto cmp = hm_hi_greater{}; __VA_ARGS__; } else { auto cmp = hm_hi_low2{}; __VA_ARGS__; } } while (0)
+
+// ---- (1) Hm instantiations of everything that moves / assigns elements inside one range
+VF_E Hm* hm_remove(Hm* f, Hm* l, Hm const& v) { return etl::remove(f, l, v); }
+VF_E Hm* hm_remove_if(Hm* f, Hm* l, int p) { Hm* r = nullptr; HPRED1(p, r = etl::remove_if(f, l, pred)); return r; }
+VF_E Hm* hm_unique(Hm* f, Hm* l, int w) { if (w == 0) { return etl::unique(f, l); } if (w == 1) { return etl::unique(f, l, hm_eq{}); } return etl::unique(f, l, hm_low2_eq{}); }
+VF_E Hm* hm_rotate(Hm* f, Hm* m, Hm* l) { return etl::rotate(f, m, l); }
+VF_E Hm* hm_shift_left(Hm* f, Hm* l, diff_t n) { return etl::shift_left(f, l, n); }
+VF_E Hm* hm_shift_right(Hm* f, Hm* l, diff_t n) { return etl::shift_right(f, l, n); }
+VF_E Hm* hm_partition(Hm* f, Hm* l, int p) { Hm* r = nullptr; HPRED1(p, r = etl::partition(f, l, pred)); return r; }
+struct hm_bit1_bool { auto operator()(Hm const& x) const -> bool { return (x.v & 2) != 0; } };   // p == 3: control with a bool result
+VF_E Hm* hm_stable_partition(Hm* f, Hm* l, int p) { if (p == 3) { return etl::stable_partition(f, l, hm_bit1_bool{}); } Hm* r = nullptr; HPRED1(p, r = etl::stable_partition(f, l, pred)); return r; }
+VF_E void hm_reverse(Hm* f, Hm* l) { etl::reverse(f, l); }
+VF_E Hm* hm_swap_ranges(Hm* f, Hm* l, Hm* f2) { return etl::swap_ranges(f, l, f2); }
+VF_E void hm_iter_swap(Hm* a, Hm* b) { etl::iter_swap(a, b); }
+VF_E Hm* hm_move(Hm* f, Hm* l, Hm* d) { return etl::move(f, l, d); }
+VF_E Hm* hm_move_backward(Hm* f, Hm* l, Hm* d) { return etl::move_backward(f, l, d); }
+VF_E Hm* hm_copy_backward(Hm const* f, Hm const* l, Hm* d) { return etl::copy_backward(f, l, d); }
+VF_E void hm_inplace_merge(Hm* f, Hm* m, Hm* l, int c) { HCMP(c, etl::inplace_merge(f, m, l), etl::inplace_merge(f, m, l, cmp)); }
+VF_E void hm_sort(Hm* f, Hm* l, int c) { HCMP(c, etl::sort(f, l), etl::sort(f, l, cmp)); }
+VF_E void hm_stable_sort(Hm* f, Hm* l, int c) { HCMP(c, etl::stable_sort(f, l), etl::stable_sort(f, l, cmp)); }
+VF_E void hm_insertion_sort(Hm* f, Hm* l, int c) { HCMP(c, etl::insertion_sort(f, l), etl::insertion_sort(f, l, cmp)); }
+VF_E void hm_bubble_sort(Hm* f, Hm* l, int c) { HCMP(c, etl::bubble_sort(f, l), etl::bubble_sort(f, l, cmp)); }
+VF_E void hm_gnome_sort(Hm* f, Hm* l, int c) { HCMP(c, etl::gnome_sort(f, l), etl::gnome_sort(f, l, cmp)); }
+VF_E void hm_exchange_sort(Hm* f, Hm* l, int c) { HCMP(c, etl::exchange_sort(f, l), etl::exchange_sort(f, l, cmp)); }
+VF_E void hm_merge_sort(Hm* f, Hm* l, int c) { HCMP(c, etl::merge_sort(f, l), etl::merge_sort(f, l, cmp)); }
+VF_E void hm_partial_sort(Hm* f, Hm* m, Hm* l, int c) { HCMP(c, etl::partial_sort(f, m, l), etl::partial_sort(f, m, l, cmp)); }
+VF_E void hm_nth_element(Hm* f, Hm* m, Hm* l, int c) { HCMP(c, etl::nth_element(f, m, l), etl::nth_element(f, m, l, cmp)); }
+// predicates on Hc, selector p: 0 bit 1 (truthy 2), 1 bit 6 (truthy 0x40), 2 sign (the promoted value & INT_MIN: truthy INT_MIN)
+struct hc_bit1 { auto operator()(Hc const& x) const -> int { return x.v & 2; } };
+struct hc_bit6 { auto operator()(Hc const& x) const -> int { return x.v & 0x40; } };
+struct hc_sign { auto operator()(Hc const& x) const -> int { return x.v & VF_IMIN; } };
+using HV4 = etl::static_vector<Hc, 4>;
+VF_E etl::size_t hm_erase(HV4& v, Hc const& x) { return etl::erase(v, x); }
+VF_E etl::size_t hm_erase_if(HV4& v, int p)
+{
+    if (p == 0) { return etl::erase_if(v, hc_bit1{}); }
+    if (p == 1) { return etl::erase_if(v, hc_bit6{}); }
+    return etl::erase_if(v, hc_sign{});
+}
+
+// ---- (2) int ranges, callables returning int
+VF_E diff_t ip_count_if(int const* f, int const* l, int p) { diff_t r = 0; IPRED1(p, r = etl::count_if(f, l, pred)); return r; }
+VF_E int const* ip_find_if(int const* f, int const* l, int p) { int const* r = nullptr; IPRED1(p, r = etl::find_if(f, l, pred)); return r; }
+VF_E int const* ip_find_if_not(int const* f, int const* l, int p) { int const* r = nullptr; IPRED1(p, r = etl::find_if_not(f, l, pred)); return r; }
+VF_E bool ip_all_of(int const* f, int const* l, int p) { bool r = false; IPRED1(p, r = etl::all_of(f, l, pred)); return r; }
+VF_E bool ip_any_of(int const* f, int const* l, int p) { bool r = false; IPRED1(p, r = etl::any_of(f, l, pred)); return r; }
+VF_E bool ip_none_of(int const* f, int const* l, int p) { bool r = false; IPRED1(p, r = etl::none_of(f, l, pred)); return r; }
+VF_E bool ip_is_partitioned(int const* f, int const* l, int p) { bool r = false; IPRED1(p, r = etl::is_partitioned(f, l, pred)); return r; }
+VF_E int const* ip_partition_point(int const* f, int const* l, int p) { int const* r = nullptr; IPRED1(p, r = etl::partition_point(f, l, pred)); return r; }
+VF_E int* ip_copy_if(int const* f, int const* l, int* d, int p) { int* r = nullptr; IPRED1(p, r = etl::copy_if(f, l, d, pred)); return r; }
+VF_E int* ip_remove_copy_if(int const* f, int const* l, int* d, int p) { int* r = nullptr; IPRED1(p, r = etl::remove_copy_if(f, l, d, pred)); return r; }
+VF_E void ip_replace_if(int* f, int* l, int p, int const& nv) { IPRED1(p, etl::replace_if(f, l, pred, nv)); }
+VF_E void ip_partition_copy(int const* f, int const* l, int* dt, int* df, int** rt, int** rf, int p)
+{
+    IPRED1(p, auto r = etl::partition_copy(f, l, dt, df, pred); *rt = r.first; *rf = r.second);
+}
+VF_E int* ip_remove_if(int* f, int* l, int p) { int* r = nullptr; IPRED1(p, r = etl::remove_if(f, l, pred)); return r; }
+VF_E int* ip_partition(int* f, int* l, int p) { int* r = nullptr; IPRED1(p, r = etl::partition(f, l, pred)); return r; }
+// binary predicates
+VF_E int const* ip_adjacent_find(int const* f, int const* l, int p) { int const* r = nullptr; IPEQ(p, r = etl::adjacent_find(f, l, pred)); return r; }
+VF_E bool ip_equal3(int const* f, int const* l, int const* f2, int p) { bool r = false; IPEQ(p, r = etl::equal(f, l, f2, pred)); return r; }
+VF_E bool ip_equal4(int const* f, int const* l, int const* f2, int const* l2, int p) { bool r = false; IPEQ(p, r = etl::equal(f, l, f2, l2, pred)); return r; }
+VF_E void ip_mismatch3(int const* f, int const* l, int const* f2, int p, int const** r1, int const** r2) { IPEQ(p, auto r = etl::mismatch(f, l, f2, pred); *r1 = r.first; *r2 = r.second); }
+VF_E void ip_mismatch4(int const* f, int const* l, int const* f2, int const* l2, int p, int const** r1, int const** r2) { IPEQ(p, auto r = etl::mismatch(f, l, f2, l2, pred); *r1 = r.first; *r2 = r.second); }
+VF_E int* ip_unique(int* f, int* l, int p) { int* r = nullptr; IPEQ(p, r = etl::unique(f, l, pred)); return r; }
+VF_E int* ip_unique_copy(int const* f, int const* l, int* d, int p) { int* r = nullptr; IPEQ(p, r = etl::unique_copy(f, l, d, pred)); return r; }
+VF_E int const* ip_search(int const* f, int const* l, int const* sf, int const* sl, int p) { int const* r = nullptr; IPEQ(p, r = etl::search(f, l, sf, sl, pred)); return r; }
+VF_E int const* ip_find_end(int const* f, int const* l, int const* sf, int const* sl, int p) { int const* r = nullptr; IPEQ(p, r = etl::find_end(f, l, sf, sl, pred)); return r; }
+VF_E int const* ip_search_n(int const* f, int const* l, int count, int const& v, int p) { int const* r = nullptr; IPEQ(p, r = etl::search_n(f, l, count, v, pred)); return r; }
+VF_E int const* ip_find_first_of(int const* f, int const* l, int const* sf, int const* sl, int p) { int const* r = nullptr; IPEQ(p, r = etl::find_first_of(f, l, sf, sl, pred)); return r; }
+// comparators
+VF_E bool ip_is_sorted(int const* f, int const* l, int c) { bool r = false; ICMP_INT(c, r = etl::is_sorted(f, l, cmp)); return r; }
+VF_E int const* ip_is_sorted_until(int const* f, int const* l, int c) { int const* r = nullptr; ICMP_INT(c, r = etl::is_sorted_until(f, l, cmp)); return r; }
+VF_E int const* ip_min_element(int const* f, int const* l, int c) { int const* r = nullptr; ICMP_INT(c, r = etl::min_element(f, l, cmp)); return r; }
+VF_E int const* ip_max_element(int const* f, int const* l, int c) { int const* r = nullptr; ICMP_INT(c, r = etl::max_element(f, l, cmp)); return r; }
+VF_E void ip_minmax_element(int const* f, int const* l, int c, int const** lo, int const** hi) { ICMP_INT(c, auto r = etl::minmax_element(f, l, cmp); *lo = r.first; *hi = r.second); }
+VF_E bool ip_lexicographical_compare(int const* f, int const* l, int const* f2, int const* l2, int c) { bool r = false; ICMP_INT(c, r = etl::lexicographical_compare(f, l, f2, l2, cmp)); return r; }
+VF_E int const* ip_lower_bound(int const* f, int const* l, int const& v, int c) { int const* r = nullptr; ICMP_INT(c, r = etl::lower_bound(f, l, v, cmp)); return r; }
+VF_E int const* ip_upper_bound(int const* f, int const* l, int const& v, int c) { int const* r = nullptr; ICMP_INT(c, r = etl::upper_bound(f, l, v, cmp)); return r; }
+VF_E void ip_equal_range(int const* f, int const* l, int const& v, int c, int const** lo, int const** hi) { ICMP_INT(c, auto r = etl::equal_range(f, l, v, cmp); *lo = r.first; *hi = r.second); }
+VF_E bool ip_binary_search(int const* f, int const* l, int const& v, int c) { bool r = false; ICMP_INT(c, r = etl::binary_search(f, l, v, cmp)); return r; }
+VF_E int const* ip_min(int const& a, int const& b, int c) { int const* r = nullptr; ICMP_INT(c, r = &etl::min(a, b, cmp)); return r; }
+VF_E int const* ip_max(int const& a, int const& b, int c) { int const* r = nullptr; ICMP_INT(c, r = &etl::max(a, b, cmp)); return r; }
+VF_E void ip_minmax(int const& a, int const& b, int c, int const** lo, int const** hi) { ICMP_INT(c, auto r = etl::minmax(a, b, cmp); *lo = &r.first; *hi = &r.second); }
+VF_E int const* ip_clamp(int const& v, int const& lo, int const& hi, int c) { int const* r = nullptr; ICMP_INT(c, r = &etl::clamp(v, lo, hi, cmp)); return r; }
+VF_E bool ip_includes(int const* f1, int const* l1, int const* f2, int const* l2, int c) { bool r = false; ICMP_INT(c, r = etl::includes(f1, l1, f2, l2, cmp)); return r; }
+VF_E void ip_sort(int* f, int* l, int c) { ICMP_INT(c, etl::sort(f, l, cmp)); }
+VF_E int* ip_merge(int const* f1, int const* l1, int const* f2, int const* l2, int* d, int c) { int* r = nullptr; ICMP_HI(c, r = etl::merge(f1, l1, f2, l2, d, cmp)); return r; }
+VF_E int* ip_set_op(int which, int const* f1, int const* l1, int const* f2, int const* l2, int* d, int c)
+{
+    int* r = nullptr;
+    if (which == 0) { ICMP_HI(c, r = etl::set_union(f1, l1, f2, l2, d, cmp)); }
+    else if (which == 1) { ICMP_HI(c, r = etl::set_intersection(f1, l1, f2, l2, d, cmp)); }
+    else if (which == 2) { ICMP_HI(c, r = etl::set_difference(f1, l1, f2, l2, d, cmp)); }
+    else { ICMP_HI(c, r = etl::set_symmetric_difference(f1, l1, f2, l2, d, cmp)); }
+    return r;
+}
 }
